@@ -19,9 +19,26 @@ def t_rejuvenate(E):
     ad = E.opaque("argdiffs", "tuple")
     E.assume(T.d_is_tree(ad.t))
     new, w, rd, bwd = E.method(rj, "edit", k, tr, ad)
-    k_model, k_prop = E.call("jax.random:split", k) if False else (None, None)
-    split = E.ctx.fn("split", U, z3.IntSort(), z3.IntSort(), U)
-    k0, k1 = split(k.t, 2, 0), split(k.t, 2, 1)
+    from theory import keys as KY
+    # the keys are read off the result: the model's edit and the proposal's simulate, whatever halves of whatever split they are
+    nt = z3.simplify(E.I.to_u(new))
+    k0 = KY.key_of(nt, "gf_edit_tr")
+    E.require("C27.Rejuvenate.new_trace_is_an_edit_of_the_model_trace", k0 is not None)
+    E.prove("C27.Rejuvenate.the_edit_is_the_model_s", nt.arg(0) == model.t)
+    found = []
+
+    def walk(e, seen=set()):
+        if e.get_id() in seen:
+            return
+        seen.add(e.get_id())
+        if z3.is_app(e) and e.decl().name() == "gf_simulate" and e.num_args() == 3 and e.arg(0).eq(q.t):
+            found.append(e)
+            return
+        for ch in e.children():
+            walk(ch)
+    walk(nt.arg(3))
+    E.require("C27.Rejuvenate.the_edit_request_is_built_from_one_run_of_the_proposal", len(found) == 1)
+    k1 = found[0].arg(1)
     ap = lambda c: E.I.call(argmap, [c], {})
     x = E.method(tr, "get_choices")
     fwd_args = ap(x)
@@ -31,7 +48,8 @@ def t_rejuvenate(E):
     m_new = UVal(T.edit_tr(model.t, k0, tr.t, E.I.to_u(req), ad.t), "Trace")
     E.cover("rejuvenate.reached")
     E.prove("C27.Rejuvenate.new_trace_is_model_updated_with_proposed_choices", E.eq(new, m_new))
-    E.prove("C04.Rejuvenate.keys_are_split_and_distinct", z3.And(k0 != k1) if False else True)
+    E.prove("C04.Rejuvenate.proposal_and_model_update_draw_with_independent_keys_derived_from_the_given_key", z3.And(
+        KY.independent(E.I, k0, k1), KY.derived_from(E.I, k0, k.t), KY.derived_from(E.I, k1, k.t)), also=["C27"])
     # discarded (old) values of the proposed addresses
     discard = UVal(E.ctx.fn("update_bwd_constraint", U, U)(T.edit_bwd(model.t, k0, tr.t, E.I.to_u(req), ad.t)), "ChoiceMap")
     x_new = E.method(m_new, "get_choices")
